@@ -77,6 +77,10 @@ func c01Spaces(c *explore.Ctx) []wordSpace {
 	}
 	bases := []string{"E", "CH", "CC", "SP", "ML", "HO"}
 	if c.Thorough() {
+		for _, b := range []string{"LCS", "LCM", "FL"} {
+			add(b, "BIGC", 0, 3)
+			add(b, "ROLL", 0, 2)
+		}
 		for _, b := range bases {
 			add(b, "BIGC", 0, 4)
 			add(b, "ROLL", 0, 4)
@@ -96,6 +100,9 @@ func c01Spaces(c *explore.Ctx) []wordSpace {
 		}
 		add("CH", "BIGC", 1, 2)
 		add("CC", "BIGC", 0xffffffff, 2)
+		for _, b := range []string{"LCS", "LCM", "FL"} {
+			add(b, "BIGC", 0, 2)
+		}
 	}
 	return sp
 }
